@@ -699,21 +699,21 @@ func parseShortTermRPS(r *bits.EBSPReader, idx, numSTRefPicSets byte, sps *SPS) 
 		if deltaIdx > idx {
 			r.SetError(fmt.Errorf("deltaIdx > idx in parseShortTermRPS"))
 		}
-		/* deltaRpsSign */ _ = r.Read(1)
-		/* absDeltaRpsMinus1*/ _ = r.ReadExpGolomb()
-		//deltaRps := (1 - (deltaRpsSign << 1)) * (absDeltaRpsMinus1 + 1)
+		deltaRps := 1 - 2*int(r.Read(1))       // delta_rps_sign
+		deltaRps *= int(r.ReadExpGolomb()) + 1 // abs_delta_rps_minus1
 		refIdx := idx - deltaIdx
-		numDeltaPocs := sps.ShortTermRefPicSets[refIdx].NumDeltaPocs
-		for j := byte(0); j <= numDeltaPocs; j++ {
-			usedByCurrPicFlag := r.ReadFlag()
-			useDeltaFlag := true
-			if !usedByCurrPicFlag {
-				useDeltaFlag = r.ReadFlag()
-			}
-			if usedByCurrPicFlag || useDeltaFlag {
-				stps.NumDeltaPocs++
+		ref := sps.ShortTermRefPicSets[refIdx]
+		numDeltaPocs := ref.NumDeltaPocs
+		usedByCurrPicFlags := make([]bool, int(numDeltaPocs)+1)
+		useDeltaFlags := make([]bool, int(numDeltaPocs)+1)
+		for j := 0; j <= int(numDeltaPocs); j++ {
+			usedByCurrPicFlags[j] = r.ReadFlag()
+			useDeltaFlags[j] = true
+			if !usedByCurrPicFlags[j] {
+				useDeltaFlags[j] = r.ReadFlag()
 			}
 		}
+		stps.deriveFromRef(ref, deltaRps, usedByCurrPicFlags, useDeltaFlags)
 	} else {
 		stps.NumNegativePics = byte(r.ReadExpGolomb())
 		stps.NumPositivePics = byte(r.ReadExpGolomb())
@@ -737,6 +737,58 @@ func parseShortTermRPS(r *bits.EBSPReader, idx, numSTRefPicSets byte, sps *SPS) 
 	}
 
 	return stps
+}
+
+// deriveFromRef - derive the pictures of an inter-predicted set from its reference set, equations (7-61) and (7-62).
+// DeltaPocS0 and DeltaPocS1 keep the same representation as for explicitly coded sets (distance to previous entry).
+func (st *ShortTermRPS) deriveFromRef(ref ShortTermRPS, deltaRps int, usedByCurrPicFlags, useDeltaFlags []bool) {
+	refS0 := make([]int, len(ref.DeltaPocS0))
+	refS1 := make([]int, len(ref.DeltaPocS1))
+	for i, poc := 0, 0; i < len(refS0); i++ {
+		poc -= int(ref.DeltaPocS0[i])
+		refS0[i] = poc
+	}
+	for i, poc := 0, 0; i < len(refS1); i++ {
+		poc += int(ref.DeltaPocS1[i])
+		refS1[i] = poc
+	}
+	nNeg, nPos := len(refS0), len(refS1)
+	if nNeg+nPos >= len(useDeltaFlags) {
+		return
+	}
+	prev := 0
+	addS0 := func(dPoc, j int) {
+		if dPoc < 0 && useDeltaFlags[j] {
+			st.DeltaPocS0 = append(st.DeltaPocS0, uint32(prev-dPoc))
+			st.UsedByCurrPicS0 = append(st.UsedByCurrPicS0, usedByCurrPicFlags[j])
+			prev = dPoc
+		}
+	}
+	for j := nPos - 1; j >= 0; j-- {
+		addS0(refS1[j]+deltaRps, nNeg+j)
+	}
+	addS0(deltaRps, nNeg+nPos)
+	for j := 0; j < nNeg; j++ {
+		addS0(refS0[j]+deltaRps, j)
+	}
+	prev = 0
+	addS1 := func(dPoc, j int) {
+		if dPoc > 0 && useDeltaFlags[j] {
+			st.DeltaPocS1 = append(st.DeltaPocS1, uint32(dPoc-prev))
+			st.UsedByCurrPicS1 = append(st.UsedByCurrPicS1, usedByCurrPicFlags[j])
+			prev = dPoc
+		}
+	}
+	for j := nNeg - 1; j >= 0; j-- {
+		addS1(refS0[j]+deltaRps, j)
+	}
+	addS1(deltaRps, nNeg+nPos)
+	for j := 0; j < nPos; j++ {
+		addS1(refS1[j]+deltaRps, nNeg+j)
+	}
+	st.NumNegativePics = byte(len(st.DeltaPocS0))
+	st.NumPositivePics = byte(len(st.DeltaPocS1))
+	st.NumDeltaPocs = st.NumNegativePics + st.NumPositivePics
 }
 
 // readPastScalingListData - read and parse all bits of scaling list, without storing values
